@@ -170,6 +170,14 @@ def discharge_sites(F, rep, rule, fn, exempt=None, only=None):
             rep.ob(rule, key, False, "constrained node is not a local: cannot follow it", line_of(n))
             continue
         hid = v["hid"]
+        hids = [hid]
+        # a binary-operator constraint `Con(b)` on a is the same check as its partner `Con'(a)` on b (the handlers are
+        # called with the two nodes in the same roles): running either one discharges both
+        if cname in PAIRED:
+            con = peel(n["args"][2])
+            other = local_hid(con["args"][0]) if con.get("k") == "Call" and con.get("args") else None
+            if other is not None and other != hid:
+                hids.append(other)
         ok = False
         # walk outwards through the enclosing blocks
         child = n
@@ -184,7 +192,7 @@ def discharge_sites(F, rep, rule, fn, exempt=None, only=None):
                         break
                 if idx is not None:
                     for it in items[idx + 1:]:
-                        if it is not None and discharges(it, hid):
+                        if it is not None and any(discharges(it, h) for h in hids):
                             ok = True
                             break
                 if ok:
@@ -673,12 +681,46 @@ PAIRED = {"Add": "Add", "Sub": "Sub", "Mul": "Mul", "Equ": "Equ", "Cmp": "Cmp", 
           "DivTop": "DivBot", "DivBot": "DivTop"}
 
 
+def self_mirroring_constraints(F):
+    """constraint kinds whose handler (dispatched from check_constraints) itself leaves the constraint on both nodes when
+    it has to defer (see DEFER-RECORDED), or decides at once by unification: for these it is enough to record the
+    constraint on one operand"""
+    fcc = F.fn(TC + "check_constraints")
+    out = set()
+    for m in matches_on(fn_body(fcc), TCM + "Constraint"):
+        for arm, alt, vp in arm_alternatives(m):
+            if not vp:
+                continue
+            cname = last(vp)
+            callees = [callee(c) for c in nodes(arm["body"], "MethodCall") if (callee(c) or "").startswith(TC)]
+            ok_all = bool(callees)
+            for cal in callees:
+                fn = F.fns.get(cal)
+                if fn is None:
+                    ok_all = False
+                    continue
+                if last(cal) == "equ":
+                    continue  # unify: decided immediately
+                rows = accept_table(F, fn) or []
+                unk = [r for r in rows if r["verdict"] == "ok" and any("Unknown" in p for p in r["pats"])]
+                rec = bool(unk)
+                for r in unk:
+                    nodes_rec = {local_hid(c["args"][0]) for c in nodes(r["arm"]["body"], "MethodCall") if callee(c) == TC + "add_constraint"}
+                    if len(nodes_rec - {None}) < 2:
+                        rec = False
+                ok_all = ok_all and rec
+            if ok_all:
+                out.add(cname)
+    return out
+
+
 def operand_pairing(F, rep, rule, fns):
     """a binary-operator constraint relates two type nodes and is only re-examined when the node *holding* it is
     refined (check_constraints walks the constraints of one node).  So `Con(b)` on node a must be mirrored by the
     partner constraint `Con'(a)` on node b in the same block, or refining b later (a parameter unified at a call
     site) never re-checks the operator."""
     count = 0
+    selfm = self_mirroring_constraints(F)
     for fn in fns:
         body = fn_body(fn)
         fname = last(fn["_path"])
@@ -714,10 +756,12 @@ def operand_pairing(F, rep, rule, fns):
                 # a declared generic constraint (`CmpEqu(var)` on var): one node, nothing to mirror
                 continue
             count += 1
-            ok = any(t is not s and t["blk"] == s["blk"] and t["node"] == s["payload"] and t["payload"] == s["node"]
-                     and t["cname"] == PAIRED[s["cname"]] for t in sites)
+            mirrored = any(t is not s and t["blk"] == s["blk"] and t["node"] == s["payload"] and t["payload"] == s["node"]
+                           and t["cname"] == PAIRED[s["cname"]] for t in sites)
+            ok = mirrored or s["cname"] in selfm
             rep.ob(rule, key, ok,
-                   ("Constraint::%s on `%s` is mirrored by Constraint::%s on the other operand in the same block" if ok else
+                   ("Constraint::%s on `%s` is mirrored by Constraint::%s on the other operand in the same block" if mirrored else
+                    "Constraint::%s on `%s`: its handler itself leaves Constraint::%s on both nodes whenever it has to defer" if ok else
                     "Constraint::%s is recorded on `%s` only: the other operand carries no Constraint::%s back, so when that "
                     "operand's type becomes known later (a parameter unified at a call) the operator is never re-checked")
                    % (s["cname"], s["name"], PAIRED[s["cname"]]), line_of(s["n"]))
